@@ -88,8 +88,12 @@ def renderBody (outer : Bool) (e : Expr) : Str :=
   | .leaf t => t
   | _ => if outer then renderE e else stripOuter (renderE e)
 
+/-- symbol with its suffix: `Bdir1`, and `Bdir1,p` for a property symbol -/
+def symWithSuffix (name : Str) (sfx : Str) : Str :=
+  if isSuffix (str ",p") name then name.take (name.length - 2) ++ sfx ++ str ",p" else name ++ sfx
+
 def renderHdr (h : Hdr) : Str :=
-  h.sym.name ++ (h.sfx.getD []) ++ (match h.anno with | some a => '[' :: a ++ [']'] | none => [])
+  symWithSuffix h.sym.name (h.sfx.getD []) ++ (match h.anno with | some a => '[' :: a ++ [']'] | none => [])
 
 mutual
 def renderS : Stmt → Str
@@ -155,6 +159,24 @@ def addField (op : Str) (f : Nat) (n : PNode) : PStmt → PStmt
 def sortFields (s : PStmt) : PStmt :=
   (List.range 27).filterMap (fun i => (s.find? (fun p => p.1 = i)))
 
+def Part.fillerText : Part → Str
+  | .filler w => w
+  | _ => []
+
+def countNested : List Part → Nat
+  | [] => 0
+  | .nested .. :: ps => 1 + countNested ps
+  | _ :: ps => countNested ps
+
+/-- operator joining several single nested statements of one statement: the one written in
+    the text between them (`… } [XOR] Cac{ …`), conjunction when none is written -/
+def nestedOp (ps : List Part) : Str :=
+  if countNested ps < 2 then opAND else
+  let fill := (ps.map Part.fillerText)
+  if fill.any (fun w => contains (str "[XOR]") w) then opXOR
+  else if fill.any (fun w => contains (str "[OR]") w) then opOR
+  else opAND
+
 mutual
 def denoteS : Stmt → PStmt
   | .mk ps =>
@@ -162,7 +184,7 @@ def denoteS : Stmt → PStmt
     -- nested-statement combinations, then single nested statements (AND between them)
     let s₁ := denoteSimple ps []
     let s₂ := denoteCombos ps s₁
-    let s₃ := denoteNested ps s₂
+    let s₃ := denoteNested (nestedOp ps) ps s₂
     sortFields s₃
 def denoteSimple : List Part → PStmt → PStmt
   | [], acc => acc
@@ -180,12 +202,12 @@ def denoteCombos : List Part → PStmt → PStmt
       | x => x
     denoteCombos ps (match h.sym.complex with | some f => addField opAND f n acc | none => acc)
   | _ :: ps, acc => denoteCombos ps acc
-def denoteNested : List Part → PStmt → PStmt
+def denoteNested (op : Str) : List Part → PStmt → PStmt
   | [], acc => acc
   | .nested h s :: ps, acc =>
     let n := PNode.stmt (hdrMeta h {}) (denoteS s)
-    denoteNested ps (match h.sym.complex with | some f => addField opAND f n acc | none => acc)
-  | _ :: ps, acc => denoteNested ps acc
+    denoteNested op ps (match h.sym.complex with | some f => addField op f n acc | none => acc)
+  | _ :: ps, acc => denoteNested op ps acc
 def denoteN : NTree → PNode
   | .one h s => .stmt { (hdrMeta h {}) with ct := [] } (denoteS s)
   | .op o l r => .comb o.str [] [] {} [] (denoteN l) (denoteN r)
